@@ -89,6 +89,7 @@ class Runner13:
         self.info = {"max_alive": 0, "stops": 0, "reinit": 0, "faults": 0, "epr": 0, "reserve": 0, "suspended": 0, "max_suspended": 0}
         self.reserved: List[int] = []  # physical qubits the network stack has taken for pairs it has not delivered yet
         self.deferred: List[int] = []  # physical qubits of delivered pairs whose virtual qubit is still allocated (response waits)
+        self.n_waiting_unreserved = 0  # waiting responses whose physical qubit was only reported by the stack (nothing marked yet)
         self.suspended: List[Dict[str, Any]] = []  # subroutines waiting for a pair (oldest request first)
 
     def case(self):
@@ -156,6 +157,9 @@ class Runner13:
             self.model[a] = ri.RefState(unit_size=size)
             self.stopped.discard(a)
             stepping = a
+            fresh = self.snapshot_app(a)
+            if fresh["shared_regs"] or fresh["shared_arrays"] or fresh["regs"] or fresh["arrays"] or fresh["qubits"]:
+                raise Failure("register:not-fresh", self.case(), f"application {a} was just registered but already owns state: {fresh}")
         elif k == "stop":
             _, a = op
             try:
@@ -279,12 +283,21 @@ class Runner13:
             stepping = a
             from netqasm.qlink_compat import LinkLayerOKTypeK, ReturnType
 
+            unreserved = False
             # a response also has to wait when an earlier response of the same queue is still waiting (no overtaking)
             must_wait = tgt["occupied"] or any(s_["sent"] and not s_["delivered"] and s_["sock"] == dsock for s_ in self.suspended if s_ is not tgt)
             if self.reserved:
                 p = self.reserved.pop(0)
-            elif must_wait:
+            elif must_wait and (len(self.history) + virt) % 2 == 0:
                 p = self.ex._get_unused_physical_qubit()  # taken at delivery time, as a network stack does
+            elif must_wait:
+                # a stack that picks a free qubit itself and only reports it: nothing is marked on the controller until the
+                # response can be applied
+                used = self.used_model()
+                p = 0
+                while p in used:
+                    p += 1
+                unreserved = True
             else:
                 used = self.used_model()
                 p = 0
@@ -298,7 +311,10 @@ class Runner13:
             tgt["sent"] = True
             if must_wait:
                 # the virtual qubit is still allocated: the response has to wait on the controller, holding its physical qubit
-                self.deferred.append(p)
+                if unreserved:
+                    self.n_waiting_unreserved += 1
+                else:
+                    self.deferred.append(p)
                 self.info["deferred"] = self.info.get("deferred", 0) + 1
                 self.info["max_alive"] = max(self.info["max_alive"], len(self.model))
                 self.check_invariants(before, None)
@@ -357,8 +373,8 @@ class Runner13:
             raise Failure("reserved-qubit-mapped", self.case(), f"physical qubits {sorted(set(seen) & set(self.reserved))} were taken by the network stack for undelivered pairs but are mapped by an application")
         if set(seen) | set(self.reserved) | set(self.deferred) != set(ex._used_physical_qubit_addresses):
             raise Failure("used-set-mismatch", self.case(), f"physical qubits marked in use {sorted(ex._used_physical_qubit_addresses)} vs mapped {sorted(seen)} + taken by the stack {sorted(self.reserved)} + held by waiting responses {sorted(self.deferred)}")
-        if len(ex._pending_epr_responses) != len(self.deferred):
-            raise Failure("waiting-responses", self.case(), f"{len(ex._pending_epr_responses)} responses wait on the controller; {len(self.deferred)} were delivered for virtual qubits that are still allocated")
+        if len(ex._pending_epr_responses) != len(self.deferred) + self.n_waiting_unreserved:
+            raise Failure("waiting-responses", self.case(), f"{len(ex._pending_epr_responses)} responses wait on the controller; {len(self.deferred) + self.n_waiting_unreserved} were delivered for virtual qubits that are still allocated")
         if set(ex._qubit_unit_modules) != set(self.model):
             raise Failure("app-set-mismatch", self.case(), f"controller has applications {sorted(ex._qubit_unit_modules)}, model {sorted(self.model)}")
         # 2./3. per application state
